@@ -170,6 +170,14 @@ fn build_pipeline_upto(v: &Value, upto: Option<usize>) -> (Pipeline, Vec<Exec>) 
         if det {
             e = e.detached();
         }
+        // "own_stderr": this command has a stderr pipe of its own (Exec::stderr(Redirection::Pipe)); it writes more to
+        // it than a pipe holds before it looks at its input
+        if v["own_stderr"].as_i64() == Some(i as i64) && fail_at != i as i64 {
+            e = Exec::cmd(vchild()).arg("@script").arg("we300000").arg("R").arg("x0").stderr(Redirection::Pipe);
+            if det {
+                e = e.detached();
+            }
+        }
         stages.push(e);
     }
     if let Some(m) = upto {
